@@ -421,6 +421,9 @@ pub struct System {
     /// the value of `next_process_id` before it ran.
     pub last_env_input: Vec<Evt>,
     pub last_env_next_pid: ProcessId,
+    /// Compute the per-worker state fingerprint at every idle point (needed for state hashing;
+    /// long-lived sessions switch it off).
+    pub fingerprints: bool,
 }
 
 pub fn builtin_registry(io: bool) -> quiver_core::builtins::BuiltinRegistry<E> {
@@ -521,6 +524,7 @@ impl System {
             select_log: vec![],
             last_env_input: vec![],
             last_env_next_pid: 0,
+            fingerprints: true,
         };
         if sys.cfg.request_early && has_entry {
             sys.issue_request();
@@ -582,10 +586,13 @@ impl System {
         if self.workers[i].dead {
             return;
         }
-        let (fp, runnable, timeout) = self.with_worker(i, |w| {
+        let want_fp = self.fingerprints;
+        let (fp, runnable, timeout) = self.with_worker(i, move |w| {
             let mut s = String::new();
-            w.verif_executor().verif_fingerprint(&mut s);
-            s.push_str(&format!("|V{:?}", w.verif_view()));
+            if want_fp {
+                w.verif_executor().verif_fingerprint(&mut s);
+                s.push_str(&format!("|V{:?}", w.verif_view()));
+            }
             (s, w.has_runnable(), w.next_timeout_ms())
         });
         let slot = &mut self.workers[i];
